@@ -180,4 +180,146 @@ def TItem.lines : TItem → List Line
 
 def tableLines (t : List TItem) : List Line := t.flatMap TItem.lines
 
+/-! ## tables as text
+
+The same tables with their layout: indentation and trailing comment of every line of the block structure,
+spelling of `if` / `else`, blanks around parentheses and braces.  A line between the lines of the block structure
+is any raw text, together with what the reader makes of it. -/
+
+/-- blanks inside a line: spaces and tabs -/
+def hblank (s : Str) : Bool := s.all (fun c => c == 32 || c == 9)
+
+/-- empty or starting with something that is not white space -/
+def nsp : Str → Bool
+  | [] => true
+  | c :: _ => !Str.isSpace c
+
+/-- layout of `if (…) {`: the keyword as spelled, blanks before `(`, before `{` and after it -/
+structure IfLay where
+  kw : Str
+  a : Str
+  b : Str
+  c : Str
+  deriving Repr
+
+def IfLay.ok (L : IfLay) : Bool := Str.lower L.kw == sIf && hblank L.a && hblank L.b && hblank L.c
+
+def ifCore (L : IfLay) (cond : Str) : Str := L.kw ++ L.a ++ [40] ++ cond ++ [41] ++ L.b ++ [123] ++ L.c
+
+/-- layout of `} else`: blanks after `}`, the keyword as spelled, blanks after it -/
+structure ElseLay where
+  s1 : Str
+  kw : Str
+  s2 : Str
+  deriving Repr
+
+def ElseLay.ok (E : ElseLay) : Bool := hblank E.s1 && Str.lower E.kw == sElse && hblank E.s2
+
+def elifCore (E : ElseLay) (L : IfLay) (cond : Str) : Str := [125] ++ E.s1 ++ E.kw ++ E.s2 ++ ifCore L cond
+def elseCore (E : ElseLay) (c : Str) : Str := [125] ++ E.s1 ++ E.kw ++ E.s2 ++ [123] ++ c
+def closeCore (c : Str) : Str := [125] ++ c
+
+/-- a stripped line that `_rewrite` passes on unchanged (outside legacy groups) -/
+def neutral (l : Str) : Bool :=
+  !l.isEmpty && (kwEqCap sFile isWordCh l).isNone && (synonyms.foldl (fun l p => replaceAll p.1 p.2 l) l == l)
+    && (kwEqCap sAction isTokCh l).isNone && !qualLine l && !kwLine sGroupC l && (kwEqCap sFlavorKw isTokCh l).isNone
+
+/-- indentation and trailing comment of a line -/
+structure Wrap where
+  indent : Str
+  tail : Str
+  deriving Repr
+
+def Wrap.ok (w : Wrap) : Bool :=
+  hblank w.indent && w.tail.all (· != 10) && (w.tail.isEmpty || w.tail.head? == some 35)
+
+def Wrap.around (w : Wrap) (core : Str) : Str := w.indent ++ core ++ w.tail
+
+/-- what a stripped line must be to survive the stripping as itself -/
+def coreOK (core : Str) : Bool := nsp core && core.all (fun c => c != 10 && c != 35)
+
+
+/-- a line between the lines of the block structure: its text, and the action it stands for (if any) -/
+structure BodyLineT where
+  raw : Str
+  res : Option Action
+  deriving Repr
+
+def lineOf : Option Action → Line
+  | some a => .act a
+  | none => .skip
+
+/-- the text is one line; stripped of indentation and comment it is either empty, or a line that `_rewrite`
+passes on unchanged and that the patterns of `_read` classify as `res` (executable: for a concrete line, `decide`) -/
+def BodyLineT.ok (pdir : Option Str) (b : BodyLineT) : Bool :=
+  b.raw.all (· != 10) &&
+    (if (strip b.raw).isEmpty then b.res.isNone
+     else neutral (strip b.raw) && decide (classify repaired pdir (strip b.raw) = .ok (lineOf b.res)))
+
+/-- the lines that reach the reader -/
+def bodyAbs (body : List BodyLineT) : Body := (body.filter (fun l => !(strip l.raw).isEmpty)).map (·.res)
+
+structure BranchT where
+  wrap : Wrap
+  lay : IfLay
+  cond : CExpr
+  trail : Str
+  body : List BodyLineT
+  deriving Repr
+
+def BranchT.abs (b : BranchT) : Branch := ⟨b.cond, b.trail, bodyAbs b.body⟩
+
+def BranchT.ok (pdir : Option Str) (b : BranchT) : Bool :=
+  b.wrap.ok && b.lay.ok && b.cond.okAt 0 && blank b.trail && (b.cond.str ++ b.trail).all (· != 10)
+    && b.body.all (BodyLineT.ok pdir)
+
+structure ElseT where
+  wrap : Wrap
+  lay : ElseLay
+  after : Str                -- blanks after `{`
+  body : List BodyLineT
+  deriving Repr
+
+def ElseT.ok (pdir : Option Str) (e : ElseT) : Bool :=
+  e.wrap.ok && e.lay.ok && hblank e.after && e.body.all (BodyLineT.ok pdir)
+
+inductive TItemT
+  | line (b : BodyLineT)
+  | chain (first : BranchT) (elifs : List (ElseLay × BranchT)) (els : Option ElseT) (closeWrap : Wrap) (closeAfter : Str)
+  deriving Repr
+
+def TItemT.ok (pdir : Option Str) : TItemT → Bool
+  | .line b => b.ok pdir
+  | .chain f es els cw ca =>
+    f.ok pdir && es.all (fun p => p.1.ok && p.2.ok pdir) && (match els with | some e => e.ok pdir | none => true)
+      && cw.ok && hblank ca
+
+/-- the table the text stands for (a line that is empty once stripped stands for nothing) -/
+def TItemT.abs : TItemT → List TItem
+  | .line b => if (strip b.raw).isEmpty then [] else [.line b.res]
+  | .chain f es els _ _ =>
+    [.chain f.abs (es.map (·.2.abs)) (els.map fun e => bodyAbs e.body)
+      (match els with | some e => e.lay.kw == sElse | none => true)]
+
+def tableAbs (t : List TItemT) : List TItem := t.flatMap TItemT.abs
+
+/-- the text lines of an item -/
+def TItemT.rawLines : TItemT → List Str
+  | .line b => [b.raw]
+  | .chain f es els cw ca =>
+    f.wrap.around (ifCore f.lay f.abs.text) :: f.body.map (·.raw)
+      ++ es.flatMap (fun p => p.2.wrap.around (elifCore p.1 p.2.lay p.2.abs.text) :: p.2.body.map (·.raw))
+      ++ (match els with | some e => e.wrap.around (elseCore e.lay e.after) :: e.body.map (·.raw) | none => [])
+      ++ [cw.around (closeCore ca)]
+
+/-- lines joined by newlines -/
+def joinNL : List Str → Str
+  | [] => []
+  | [l] => l
+  | l :: l' :: ls => l ++ 10 :: joinNL (l' :: ls)
+
+/-- the text of a table; `nl`: the file ends with a newline -/
+def tableText (t : List TItemT) (nl : Bool) : Str :=
+  joinNL (t.flatMap TItemT.rawLines) ++ (if nl then [10] else [])
+
 end EupsModel.C11Spec
